@@ -295,7 +295,10 @@ func scenarioTiles(t *traceWriter, rng *rand.Rand) {
 	// schedules 3.. run on a second, large log (> 2^16 leaves), where tiles of level 1 become complete and tile
 	// (level 0, index n) and tile (level 1, index n) are both requested within one process lifetime
 	schedules := [][]int{{100, 255, 256, 257, 300}, {3, 200, 260, 513, 700}, {250, 251, 252, 600},
-		{255, 300, 65536, 65537}, {100, 65536, 65700}, {65535, 65536, 65793}}
+		{255, 300, 65536, 65537}, {100, 65536, 65700}, {65535, 65536, 65793},
+		// one step from far back to beyond 2^16: the proof needs a complete level-1 tile, complete and partial level-0
+		// tiles together (five or more tiles in one ReadTiles call)
+		{300, 65700}, {1, 1200, 65793}}
 	var bigSdb *stubSumDB
 	var bigTr *branch
 	smallSdb, smallTr := sdb, tr
